@@ -5,6 +5,7 @@
   initial window 65 535, SETTINGS_INITIAL_WINDOW_SIZE applied retroactively, plus increments.
 -/
 import LtVerif.Proofs.H2Flow
+import LtVerif.Model.H2
 namespace LtVerif.C06
 open LtVerif
 
@@ -138,6 +139,53 @@ theorem c06_turn_decreases_pending (s : FcStream) (cswin : Int) (budget : Nat) :
     (streamTurn cswin budget s).1.pending + (streamTurn cswin budget s).2 = s.pending := by
   obtain ⟨_, _, _, _, hp, hn⟩ := streamTurn_spec cswin budget s
   rcases hn with h0 | ⟨_, _, _, hle⟩ <;> omega
+
+/-! ## receive side: credit is returned at least as fast as DATA is received -/
+
+/-- run h2_send_window_update_unit() over a sequence of received DATA frame lengths;
+    returns the final fudge and the total credit returned in WINDOW_UPDATE frames -/
+def creditRun : Int → List Nat → Int × Nat
+  | f, [] => (f, 0)
+  | f, len :: rest =>
+    let r := creditRun (fudgeUpdate f len).1 rest
+    (r.1, r.2 + (if (fudgeUpdate f len).2 then 16384 else 0))
+
+/-- **Upload progress**: for every sequence of DATA frames of legal size (≤ 16384, the
+    advertised SETTINGS_MAX_FRAME_SIZE) the credit lighttpd has returned (connection level,
+    and stream level for streams whose body it is reading) is at least the number of bytes
+    received, and ahead of it by less than one frame: the window the client sees never drops
+    below the initially advertised one, so a client that respects it can always send more. -/
+theorem c06_upload_credit_returned (lens : List Nat) (hl : ∀ l ∈ lens, l ≤ 16384) :
+    ∀ (f : Int), 0 ≤ f → f < 16384 →
+      let r := creditRun f lens
+      0 ≤ r.1 ∧ r.1 < 16384 ∧ (r.2 : Int) - (lens.sum : Int) = r.1 - f := by
+  induction lens with
+  | nil => intro f h0 h1; simp [creditRun, h0, h1]
+  | cons l rest ih =>
+    intro f h0 h1
+    have hl0 : l ≤ 16384 := hl l (by simp)
+    have hrest : ∀ x ∈ rest, x ≤ 16384 := fun x hx => hl x (by simp [hx])
+    have hf : 0 ≤ (fudgeUpdate f l).1 ∧ (fudgeUpdate f l).1 < 16384 ∧
+        (fudgeUpdate f l).1 = f - l + (if (fudgeUpdate f l).2 then 16384 else 0) := by
+      unfold fudgeUpdate
+      simp only
+      split <;> simp <;> omega
+    simp only [creditRun, List.sum_cons]
+    generalize fudgeUpdate f l = gw at hf ⊢
+    obtain ⟨g, w⟩ := gw
+    simp only at hf ⊢
+    obtain ⟨g0, g1, g2⟩ := hf
+    have := ih hrest g g0 g1
+    simp only at this
+    obtain ⟨i0, i1, i2⟩ := this
+    refine ⟨i0, i1, ?_⟩
+    push_cast
+    cases w <;> simp at g2 ⊢ <;> omega
+
+/-- the windows advertised in the server connection preface (read back from the code) -/
+theorem c06_advertised_windows :
+    Extracted.h2AdvInitialWindow = 65536 ∧ Extracted.h2AdvConnWindowUpdate + 65535 = 262144 ∧
+    Extracted.h2ConnRecvWindow = 262144 ∧ Extracted.h2AdvMaxFrameSize = 16384 := by decide
 
 /-! non-vacuity: the boundary history that distinguishes 65535 from 65536 -/
 example : (fcRun FcConn.init [.windowUpdate 0 100000, .openStream 1 65536 false,
